@@ -27,7 +27,8 @@ ASSUMPTIONS = ['a crash during the cache write leaves a prefix of the intended f
                'cache files that are valid JSON but semantically wrong are outside the statement']
 REQUIRED = ['mon.cached_connects', 'mon.cache_hits', 'mon.truncation_offsets', 'mon.truncated_connects',
             'mon.garbled_files', 'mon.crc_collision_cases', 'mon.ro_dir_audited', 'mon.audit_events_seen',
-            'mon.files_vanished_before_connect', 'mon.files_with_a_field_missing']
+            'mon.files_vanished_before_connect', 'mon.files_with_a_field_missing',
+            'mon.crc_collision_with_one_empty_table']
 DESC_TIMEOUT = 1500
 EXHAUSTIVE = {'quick': False, 'thorough': False}
 EXHAUSTIVE_NOTE = 'truncation offsets are enumerated completely for every written cache file (fetch level); connections on a sample'
@@ -75,6 +76,10 @@ def cases(tier, seed):
         out.append({'seed': seed * 1000003 + i, 'nlog': rnd.randint(0, 12), 'nparam': rnd.randint(0, 12),
                     'proto': rnd.choice((10, 10, 3)), 'config': CONFIGS[i % len(CONFIGS)], 'crc': crc_mode,
                     'connect_samples': 6 if tier == 'quick' else 40, 'latin': i % 4 == 0})
+    # an empty table whose checksum collides with the (non-empty) table of the other kind
+    for j, (nl, npar, cfg) in enumerate(((0, 5, 'rw'), (4, 0, 'rw'), (0, 3, 'ro+rw'), (6, 0, 'none'), (0, 0, 'rw'), (0, 1, 'ro'))):
+        out.append({'seed': seed * 1000003 + 5000 + j, 'nlog': nl, 'nparam': npar, 'proto': 10 if j % 2 == 0 else 3, 'config': cfg,
+                    'crc': 'collide', 'connect_samples': 2, 'latin': False})
     return out
 
 
@@ -140,6 +145,8 @@ def run(desc, ctx):
     if desc['crc'] == 'collide':
         prof['param_crc'] = prof['log_crc']
         ctx.count('mon.crc_collision_cases')
+        if (desc['nlog'] == 0) != (desc['nparam'] == 0):
+            ctx.count('mon.crc_collision_with_one_empty_table')
     elif desc['crc'] == 'near':
         prof['param_crc'] = prof['log_crc'] ^ rnd.choice((0x1, 0xF, 0x10, 0xF0000000))
     elif desc['crc'] == 'zero':
